@@ -6,13 +6,6 @@ import CoseModel.Generated.Facts
 open CoseModel
 namespace C15
 
-theorem facts_key_constants :
-    Facts.consts.lookup "KeyTypeOKP" = some 1 ∧ Facts.consts.lookup "KeyTypeEC2" = some 2 ∧
-    Facts.consts.lookup "KeyTypeSymmetric" = some 4 ∧ Facts.consts.lookup "KeyTypeReserved" = some 0 ∧
-    Facts.consts.lookup "KeyOpSign" = some 1 ∧ Facts.consts.lookup "KeyOpVerify" = some 2 ∧
-    Facts.consts.lookup "keyLabelKeyType" = some 1 ∧ Facts.consts.lookup "keyLabelKeyOps" = some 4 ∧
-    Facts.consts.lookup "keyLabelAlgorithm" = some 3 := by decide
-
 /-- A key yields a signer only if key_ops (when present) include sign, it has private material,
     and the signer is for the algorithm fixed by the key. -/
 theorem signer_gate (k : Key) (a : Int) (h : k.signer = .ok a) :
